@@ -9,6 +9,7 @@ with a kept prefix) and crashes are injected at the write/append of the routes f
 user's recovery (the routes file is put back from the last good state) before the history goes on.
 """
 import ast
+import os
 import json
 import re
 
@@ -83,7 +84,7 @@ REFUSED_CRUDS = ("RD", "U", "CU", "CRUD")
 def probes():
     return ["openapi_ok", "upsert_appended_to_existing_routes_file", "two_models_interleaved", "multiword_model",
             "fault_fired_on_append", "fault_fired_on_first_write", "recovered_after_fault", "inferred_pk_model",
-            "noop_upsert", "second_routes_file", "second_app", "crash_fired", "refused_request", "explicit_route"]
+            "noop_upsert", "second_routes_file", "second_app", "crash_fired", "refused_request", "explicit_route", "user_renamed_model_same_size_same_second"]
 
 
 # ------------------------------------------------------------------------------------ generators
@@ -155,7 +156,7 @@ def plans(draw):
     if draw(st.integers(0, 9)) >= 7:
         i = draw(st.integers(0, len(cmds) - 1))
         cmds[i]["fault"] = draw(fault_spec())
-    return {"models": models, "cmds": cmds}
+    return {"models": models, "cmds": cmds, "rename": draw(st.integers(0, 4)) == 4}
 
 
 # -------------------------------------------------------------------------------------- renderer
@@ -637,6 +638,52 @@ def _bump(d, k, n=1):
     d[k] = d.get(k, 0) + n
 
 
+ALIASES = {"Config": "Konfig", "Settings": "Sessions", "Record": "Rekord", "Model": "Modal", "Loader": "Loafer"}
+
+
+def _user_renames_model(world, plan, models, wanted, stats, probe):
+    """End of a history: the simulated user renames one model to a name of the same length - class, table and every
+    mention in the routes files, by search and replace - within the same clock second as the last command (every file
+    keeps its size and its whole-second timestamp).  The document generated next must be the document of the renamed
+    project: nothing remembered from the earlier openapi_bulk calls of this process may show in it."""
+    cand = [m for m in models if m["name"] in ALIASES and any(w[1] == m["name"] for w in wanted)
+            and not any(o is not m and (o["name"].lower() in m["name"].lower() or m["name"].lower() in o["name"].lower())
+                        for o in models)]
+    present_files = [f for f in ROUTE_FILES if world.exists(f)]
+    if not cand or not present_files:
+        return []
+    m = cand[0]
+    old, new = m["name"], ALIASES[m["name"]]
+
+    def ren(text):
+        return text.replace(old, new).replace(old.lower(), new.lower()) if isinstance(text, str) else text
+    for rel in ["models.py"] + present_files:
+        full = world.p(rel)
+        st_ = os.stat(full)
+        text = world.read(rel)
+        world.write_files({rel: ren(text)})
+        os.utime(full, ns=(st_.st_atime_ns, st_.st_mtime_ns))
+    models2 = [dict(x, name=ren(x["name"]), table=ren(x["table"]), doc=ren(x["doc"])) if x is m else x for x in models]
+    wanted2 = set((a, ren(mn) if mn == old else mn, c, ren(r) if mn == old else r) for (a, mn, c, r) in wanted)
+    _bump(probe, "user_renamed_model_same_size_same_second")
+    analyses = dict((f, analyse_routes(world.read(f))) for f in present_files)
+    viols = []
+    for a in sorted(set(w[0] for w in wanted2)):
+        o2 = ops.invoke(world, {"cmd": "sdk", "fn": "cdd.compound.openapi.gen_openapi.openapi_bulk",
+                                "kwargs": {"app_name": a, "model_paths": ["{ROOT}/models.py"],
+                                           "routes_paths": ["{ROOT}/" + f for f in present_files]}})
+        stats["evaluations"] += 1
+        _bump(stats["outcomes"], "openapi_bulk_after_rename:%s" % o2.kind)
+        if o2.ok:
+            want_a = set((mn, c, r) for (aa, mn, c, r) in wanted2 if aa == a)
+            viols += check_document(o2.result, models2, want_a, a, analyses, present_files)
+    for x in viols:
+        x["detail"] = "after the user renamed %s to %s in models.py and %s (same sizes, same second): %s" % (
+            old, new, ", ".join(present_files), x["detail"])
+        x["sig"] = dict(x["sig"], after_rename=True)
+    return viols
+
+
 def simulate(plan):
     warm_up()
     res = SimResult()
@@ -652,7 +699,7 @@ def simulate(plan):
     wanted = set()          # R: (app, model name, op, route)
     held = {}               # element of R -> routes file it was first generated into
     history = []
-    concrete = {"models": models, "cmds": []}
+    concrete = {"models": models, "cmds": [], "rename": bool(plan.get("rename"))}
     completed = 0
     docs_ok = 0
     order_ok = []           # model index of every completed, file-changing command (for the interleaving probe)
@@ -769,6 +816,8 @@ def simulate(plan):
             history.append({"argv": op["argv"], "outcome": o.brief(), "docs": doc_digests, "world": wd,
                             "events": [(e["kind"], e["path"] if e.get("inside") else "<outside>") for e in o.events if "io" in e],
                             "violated": sorted(set(x["clause"] for x in viols))})
+        if plan.get("rename") and completed and not res.violations:
+            res.violations += _user_renames_model(world, plan, models, wanted, stats, probe)
         final_files = dict((f, world.read(f)) for f in ROUTE_FILES if world.exists(f))
         ev = check_emit_path(plan, probe)
         if ev:
